@@ -9,7 +9,7 @@ import (
 	"verif/internal/refarr"
 )
 
-const modelBudget = 1 << 16
+const modelBudget = 1 << 12
 
 // mrun executes an Input against the refarr model and produces the same event
 // stream the JavaScript side produces on otto.
@@ -34,7 +34,10 @@ type mrun struct {
 	sortOK   bool   // spec preconditions for defined behaviour hold
 	sortWhy  string // why not
 	sortRest string
-	sortLog  []string
+	// sortOnlyIncons: the only reason the behaviour is implementation-defined is
+	// an inconsistent (but pure, terminating) comparator
+	sortOnlyIncons bool
+	sortLog        []string
 }
 
 type sortEl struct {
@@ -290,7 +293,7 @@ func (m *mrun) buildRecv(rc Recv) {
 		for i, e := range rc.E {
 			vals[i] = m.val(e)
 		}
-		o := m.r.NewArguments(vals, m.r.NewFunction("", nil))
+		o := m.r.NewArguments(vals, m.r.NewFunction("", func(*refarr.Realm, refarr.Value, []refarr.Value) refarr.Value { return refarr.Undefined }))
 		m.R = refarr.ObjV(o)
 		put(o, rc.Extra)
 	case "prim":
@@ -600,15 +603,23 @@ func (m *mrun) doOp(op Op) {
 // behaviour for this receiver at all.
 func (m *mrun) prepareSort(op Op) {
 	r := m.r
+	if m.R.K == refarr.KUndef && r.Dev&refarr.DevUndefinedThis != 0 {
+		m.out("ret", "G") // the global object has no length: nothing to sort
+		return
+	}
 	if m.R.K == refarr.KUndef || m.R.K == refarr.KNull {
 		m.guard(func() { r.ToObject(m.R) }) // 15.4.4.11 step 1: TypeError, fully defined
 		return
 	}
 	m.sortAt = len(m.events)
 	m.sortOK = true
+	m.sortOnlyIncons = false
 	bad := func(why string) {
 		if m.sortOK {
 			m.sortOK, m.sortWhy = false, why
+			m.sortOnlyIncons = why == "inconsistent comparator"
+		} else if why != "inconsistent comparator" {
+			m.sortOnlyIncons = false
 		}
 	}
 	m.guard(func() {
@@ -625,7 +636,9 @@ func (m *mrun) prepareSort(op Op) {
 				if m.sortCmp.K != refarr.KUndef {
 					bad("comparefn is neither undefined nor a function")
 				}
-			} else if op.CB.Ret == "incons" || op.CB.ThrowAt >= 0 {
+			} else if op.CB.ThrowAt >= 0 {
+				bad("throwing comparator")
+			} else if op.CB.Ret == "incons" {
 				bad("inconsistent comparator")
 			}
 		} else if len(op.Args) > 0 {
@@ -710,6 +723,7 @@ func runModel(in *Input, variant, dev int) (m *mrun, status string) {
 	m.T = m.r.NewObject("Object", m.r.ObjectProto)
 	m.T.Name = "T"
 	m.tags["T"] = m.T
+	m.tags["G"] = m.r.Global
 	m.declare(in)
 	m.buildRecv(in.Recv)
 	for i, op := range in.Ops {
